@@ -559,3 +559,36 @@ theorem idCore_match (W A B : CSet) : ∀ (suf : List Nat) (pre : List Nat),
   exact scan suf pre _ hall hex (by simp)
 
 end MindsVerif.Re
+
+namespace MindsVerif.Re
+
+/-- no code point of the ranges of `P` is a member of `B` (by enumeration) -/
+def noneMemR (B P : CSet) : Bool := P.all fun r => (List.range' r.1 (r.2 + 1 - r.1)).all fun c => !B.mem c
+
+theorem noneMemR_sound {B P : CSet} (h : noneMemR B P = true) {c : Nat} (hc : inSet P c) : B.mem c = false := by
+  obtain ⟨r, hr, h1, h2⟩ := hc
+  unfold noneMemR at h
+  have := (List.all_eq_true.mp ((List.all_eq_true.mp h) r hr)) c
+    (by rw [List.mem_range']; exact ⟨c - r.1, by omega, by omega⟩)
+  simpa using this
+
+/-- the identifier core fails on a text without a `B` character -/
+theorem idCore_none (W A B : CSet) (p : Pos) (hb : ∀ c ∈ p.suf, B.mem c = false) : matchAt W (idCore A B) p = none := by
+  unfold matchAt idCore
+  show m W (.star true (.set A)) p (fun q => m W (.seq (.seq (.set B) (.star true (.set B))) (.star true (.set A))) q some) = _
+  simp only [m]
+  apply star_set_none (isSetStep_m W A)
+  intro q hq
+  exact id_tail_none W A B q fun c t hs => hb c (Pos.suf_of_le hq c (by rw [hs]; exact List.mem_cons_self))
+
+/-- `S S*` (that is `S+`) on an all-`S` rest runs to the end -/
+theorem plus_set_all (W S : CSet) (pre : List Nat) (c : Nat) (t : List Nat) (hall : ∀ d ∈ c :: t, S.mem d = true) :
+    matchAt W (.seq (.set S) (.star true (.set S))) ⟨pre, c :: t⟩ = some (Pos.mk pre (c :: t)).fin := by
+  unfold matchAt
+  show m W (.set S) ⟨pre, c :: t⟩ (fun q => m W (.star true (.set S)) q some) = _
+  have hc : S.mem c = true := hall c List.mem_cons_self
+  simp only [m, hc, if_true]
+  rw [← Pos.fin_step]
+  exact star_set_all (isSetStep_m W S) t (c :: pre) _ some _ (fun d hd => hall d (List.mem_cons_of_mem _ hd)) (by simp) rfl
+
+end MindsVerif.Re
